@@ -546,8 +546,11 @@ struct TypedGen {
       for (auto& n : everUsed) { bool live = false; for (auto& l : scope) live |= l.name == n; if (!live) released.push_back(n); }
       if (!released.empty() && c.chance(3, 4)) return c.oneof(released);
     }
+    // in name-reuse mode the pool is made of names that are concatenations of each other: distinct tuple patterns such
+    // as (a,bc) / (ab,c) then spell the same text when their names are joined
+    static const std::vector<std::string> joinable = {"a", "b", "c", "ab", "bc", "ba", "aa", "bb"};
     for (int tries = 0; tries < 30; ++tries) {
-      const std::string n = c.oneof(pool);
+      const std::string n = c.oneof(optReuseNames ? joinable : pool);
       bool enabled = false; for (auto& l : scope) enabled |= l.name == n;
       if (!enabled) { everUsed.insert(n); return n; }
     }
